@@ -93,7 +93,10 @@ def run(chk):
     defs = {k: [norm(v) for v in vs if v is not None] for k, vs in local_defs(fn).items()}
     # R17.1 composition
     kt = defs.get('kT', [])
-    chk.ob('R17.1', kt == ['coo_matrix(self.k0+k0L+kL0+kLL+kG)'], CONECYL, fname, 'kT = k0 + k0L + k0L^T + kLL + kG', got=kt, sample='kT = ' + str(kt))
+    ktn = [v for v in local_defs(fn).get('kT', []) if v is not None]
+    okkt = len(ktn) == 1 and isinstance(ktn[0], ast.Call) and pyflow.callee_name(ktn[0]) in ('coo_matrix', 'csr_matrix') and \
+        pyrules.same_expr(ktn[0].args[0], 'self.k0 + k0L + kL0 + kLL + kG')
+    chk.ob('R17.1', okkt, CONECYL, fname, 'kT = k0 + k0L + k0L^T + kLL + kG', got=kt, sample='kT = ' + str(kt))
     chk.ob('R17.1', defs.get('kL0') == ['k0L.T'], CONECYL, fname, 'kL0 is the transpose of k0L', got=defs.get('kL0'))
     for nm in ('kG', 'kLL'):
         vs = defs.get(nm, [])
